@@ -3,6 +3,7 @@
 
 mod gen;
 mod json;
+mod compiled;
 mod props;
 mod real;
 mod realpath;
@@ -22,6 +23,7 @@ fn property(id: &str) -> Option<Box<dyn Property>> {
     match id {
         "C01" => Some(Box::new(props::c01::C01)),
         "C02" => Some(Box::new(props::c02::C02)),
+        "C03" => Some(Box::new(props::c03::C03)),
         "C10" => Some(Box::new(props::c10::C10)),
         "C11" => Some(Box::new(props::c11::C11)),
         "C12" => Some(Box::new(props::c12::C12)),
@@ -128,6 +130,21 @@ fn real_main() -> i32 {
             println!("{}", sc.to_json().pretty());
             let out = p.run(&sc);
             println!("violation: {:?}\nnontrivial: {} ticks: {} counters: {:?}", out.violation, out.nontrivial, out.ticks, out.counters);
+            0
+        }
+        "model" => {
+            // model <program text> [stdin text]: run the reference model on what the real parser returns
+            let text = a.rest.first().cloned().unwrap_or_default();
+            let stdin = a.rest.get(1).cloned().unwrap_or_default();
+            let parsed = hyeong::core::parse::parse(text);
+            let cmds = props::c13::cmds_from_parsed(&parsed);
+            let p = reflang::preflight(&cmds, stdin.as_bytes(), 100000, 4096, false);
+            println!("halt: {:?} after {} steps", p.halt, p.safe_steps);
+            println!("stdout: {:?}", String::from_utf8_lossy(&p.m.out));
+            println!("stderr: {:?}", String::from_utf8_lossy(&p.m.err));
+            for (i, st) in &p.m.stacks {
+                println!("stack {}: {:?}", i, st.iter().map(|v| v.text()).collect::<Vec<_>>());
+            }
             0
         }
         _ => {
